@@ -182,6 +182,19 @@ func c05Run(env *core.Env, idx int) core.CaseResult {
 		case 0:
 			toks = append(append([]string{}, toks...), "nowhere")
 			fault = "dangling-pointer"
+		case 2:
+			// a pointer through a keyword the target does not carry (a typed root yields nothing there, without a lookup error)
+			if node, ok := in.Lookup(t.st); ok && t.kind == "schema" {
+				if nm, isObj := node.(map[string]interface{}); isObj {
+					for _, kw := range []string{"not", "additionalProperties", "additionalItems", "items"} {
+						if _, has := nm[kw]; !has {
+							toks = append(append([]string{}, toks...), kw)
+							fault = "dangling-pointer(absent-keyword)"
+							break
+						}
+					}
+				}
+			}
 		case 1:
 			if tdoc != w.Root {
 				tdoc = tdoc + ".missing"
@@ -307,7 +320,7 @@ func init() {
 		Run:      c05Run,
 		Floors: func(env *core.Env) []string {
 			return []string{"kind.schema", "kind.parameter", "kind.response", "kind.pathItem", "kind.items", "root.typed", "root.generic", "root.location-only", "root.typed(no-base)",
-				"root.generic(no-base)", "fault.dangling-pointer", "fault.dangling-document", "escaped-token", "cross-document", "form.fragment", "form.rel", "form.abs", "form.rootrel"}
+				"root.generic(no-base)", "fault.dangling-pointer", "fault.dangling-pointer(absent-keyword)", "fault.dangling-document", "escaped-token", "cross-document", "form.fragment", "form.rel", "form.abs", "form.rootrel"}
 		},
 		Assumptions: []string{"the expected value is the designated JSON after the kind's own codec (C01 owns codec losses)", "the zero Ref{} is not a reference and is left out"},
 	})
